@@ -275,8 +275,13 @@ Fixpoint entry_gen (h : head) (v : pv) {struct h} : res pv :=
   | HUUID | HCast | HSubMapping | HSubIterable | HSubIterator | HFixedTuple | HStructured =>
       bind (load_gen fixd v) (rest h)
   | HLiteral vals =>
+      (* if val in self.values: return val
+         text = serdes.decode(val);  if text in self.values: return text
+         decoded = serdes.load(val); if decoded in self.values: return decoded;  raise ValueError *)
       if in_values v vals then Ok v
-      else bind (load_gen fixd v) (fun d => if in_values d vals then Ok d else Raise EValue)
+      else bind (decode v) (fun t =>
+             if in_values t vals then Ok t
+             else bind (load_gen fixd v) (fun d => if in_values d vals then Ok d else Raise EValue))
   | HUnion ms =>
       (fix try (l : list head) : res pv :=
          match l with
@@ -298,30 +303,24 @@ Definition entry_pinned := entry_gen false.
 Definition no_bin_value (v : pv) : bool :=
   match v with PText CStr _ => true | PText _ _ => false | _ => true end.
 
-(* c14_guard h s: the region in which the faithful model makes all carriers of s agree.
-   Excluded:  NoOp (Any/object: returns the carrier itself) and Bytes (bytes-like target,
-   outside the property);  a Literal that has s itself as a member while s also reads as
-   JSON / a Python literal of something else (raw membership is tested before decoding,
-   so the str carrier returns s and the bytes carriers return or reject the loaded value). *)
-Fixpoint c14_guard (h : head) (s : str) {struct h} : bool :=
+(* c14_guard h: the targets the property speaks about ("T without bytes-like members"), as far as
+   the routine head shows it.  Excluded: NoOp (Any/object: returns the carrier itself), Bytes
+   (bytes-like target), a Literal with a bytes-like member; a Union is judged member by member. *)
+Fixpoint c14_guard (h : head) {struct h} : bool :=
   match h with
   | HNoOp | HBytes => false
-  | HLiteral vals =>
-      forallb no_bin_value vals &&
-      (negb (in_values (PStr s) vals) ||
-       match load (PStr s) with Ok (PText CStr s') => list_N_eqb s' s | _ => false end)
+  | HLiteral vals => forallb no_bin_value vals
   | HUnion ms => (fix all (l : list head) : bool :=
-                    match l with [] => true | m :: r => c14_guard m s && all r end) ms
+                    match l with [] => true | m :: r => c14_guard m && all r end) ms
   | _ => true
   end.
 
 End Serdes.
 
-(* The unguarded statement, for a given version of the code (fixd): every head that is not NoOp / Bytes,
-   every encodable s, every carrier.  FALSE for both versions (Proofs/SerdesLemmas.v: full_refuted). *)
-Definition no_bytes_target (h : head) : bool :=
-  match h with HNoOp | HBytes => false | _ => true end.
+(* The full statement, for a given version of the code (fixd): every target without bytes-like
+   members, every encodable s, every carrier.  It HOLDS for the repaired code and is false without
+   the strload repair (Proofs/SerdesLemmas.v: full_holds, full_pinned_refuted). *)
 Definition C14_full (fixd : bool) : Prop :=
   forall rt, RuntimeLaws rt -> forall rest whole sup h k s,
-    no_bytes_target h = true -> encodable s = true ->
+    c14_guard h = true -> encodable s = true ->
     entry_gen rt rest whole sup fixd h (carrier rt k s) = entry_gen rt rest whole sup fixd h (PStr s).
